@@ -62,7 +62,7 @@ class OriginatorID(Attribute):
         """
         try:
             return struct.pack('!B', cls.FLAG) + struct.pack('!B', cls.ID) \
-                + struct.pack('!B', 4) + netaddr.IPAddress(value).packed
+                + struct.pack('!B', 4) + netaddr.IPAddress(value, 4).packed
         except Exception:
             raise excep.UpdateMessageError(
                 sub_error=bgp_cons.ERR_MSG_UPDATE_ATTR_LEN,
